@@ -160,6 +160,9 @@ def pass_widening_tie(c, hb):
     c.oblige("c01-src (a'): srcDen accepts no document the reference validator rejects (%d invalid documents)" % st["invalid"], not unsound)
     c.oblige("witness of C01_pass_widening_counterexample replays on the real front-end and passes (source-valid, in srcDen, not in den of the real post-chain IR nor of the model's)",
              len(pinned) == 1 and all(p[2] for p in pinned), [(p[0][1], p[1]) for p in pinned] or "pinned row missing")
+    if len(pinned) == 1 and all(p[2] for p in pinned):
+        # the witness is a genuine defect of cog on the pinned tree: recorded, printed as KNOWN-FINDING
+        c.match_known("c01-src pinned pincollidejs\tFAIL source-valid document not accepted: generated struct name overwrites a user definition")
     c.oblige("c01-src is not vacuous (plain cases, documents in srcDen, fault documents)", nplain >= 10 and st["plain_in_srcDen"] >= 100 and st["invalid"] >= 100,
              "plain cases %d, plain documents in srcDen %d, invalid documents %d" % (nplain, st["plain_in_srcDen"], st["invalid"]))
     c.count("c01-src", len(rows), [r[0] for r in rows if r[0].startswith("srcden ") and r[0].count("(") >= 6],
